@@ -112,6 +112,8 @@ inductive Ev where
   | exitAt (k : Nat)        -- NOT nesting: the block `k` levels below the innermost one is left first
   | get                     -- `get_current_dependency()`
   | arith (op : Op)         -- a bare operator on two p-boxes
+  | closeOther              -- closing a generator whose block was entered by ANOTHER context: `reset(token)` raises
+                            -- ValueError there ("created in a different Context"); the closer's context is untouched
   | call (op : Op) (d : Code)   -- an EXPLICIT method `x.op(y, dependency=d)`: the ambient setting plays no role
   | spawnThread (child : Nat)   -- `threading.Thread(...).start()`
   | spawnTask (child : Nat)     -- `asyncio.create_task(...)` / `asyncio.to_thread(...)`
@@ -148,6 +150,7 @@ def stepCtx (c : Ctx) : Ev → Option Ctx
   | .get => some c
   | .arith _ => some c
   | .call _ _ => some c
+  | .closeOther => some c
   | .spawnThread _ => some c
   | .spawnTask _ => some c
 
